@@ -183,7 +183,7 @@ def main(argv=None):
     args = parse_args(argv)
     pid = "C05"
     n, max_points = {"quick": (22, 14), "thorough": (400, 60)}[args.tier]
-    report = Report(pid, args.tier, args.seed, level="model_checking")
+    report = Report(pid, args.tier, args.seed, level="fault_enumeration")
     report.assumptions.extend([
         "process kill = database as of the last committed transaction + the tree at that instant (power loss with synchronous=OFF is outside the property)",
         "crash points: after every state-changing commit, before every file-system action of a running step, after every cleanup removal; sampled uniformly (reservoir) when a build has more than the per-case budget",
